@@ -160,11 +160,11 @@ var Specs = map[string]*PropSpec{
 		Rule: "refresh-biased sequence (clock moved onto refresh deadlines); non-trivial = at least one reload and one manual refresh message; distinct = hash of (config, ops)"},
 	"C12": {Profiles: []string{"expiry", "refresh", "sweep"}, Classes: []string{"deadline", "tooearly", "calc", "calcexp", "expired", "early"}, Quick: 16000, Thorough: 1000000, MinOps: 60, MaxOps: 250,
 		Rule: "deadline-biased sequence; after every operation ExpiresAtNano/RefreshableAtNano of every key is compared with op time + calculator duration (saturating); non-trivial = at least 5 calculator consultations; distinct = hash of (config, ops)"},
-	"C13": {Profiles: []string{"sweep"}, Classes: []string{"sweep", "unreported"}, Quick: 12000, Thorough: 800000, MinOps: 80, MaxOps: 400,
+	"C13": {Profiles: []string{"sweep"}, Classes: []string{"sweep", "unreported", "wheel"}, Quick: 12000, Thorough: 800000, MinOps: 80, MaxOps: 400,
 		Rule: "sweep-biased sequence (TTLs ns..years, clock jumps up to many wheel revolutions, CleanUp); at each CleanUp every entry older than one tick must be gone and reported; non-trivial = at least one CleanUp that judged an expired entry; distinct = hash of (config, ops)"},
 	"C04": {Profiles: []string{"size", "queued", "sizeexp"}, Classes: []string{"bound"}, Quick: 6000, Thorough: 400000, MinOps: 80, MaxOps: 400,
 		Rule: "sequential part: size-biased sequences, the weight total of the model's physical contents is compared with the maximum after every operation (same-goroutine executor, so maintenance has run)"},
-	"C05": {Profiles: []string{"size", "mix", "queued", "sizeexp"}, Classes: []string{"views"}, Quick: 6000, Thorough: 400000, MinOps: 80, MaxOps: 400,
+	"C05": {Profiles: []string{"size", "mix", "queued", "sizeexp"}, Classes: []string{"views", "wheel"}, Quick: 6000, Thorough: 400000, MinOps: 80, MaxOps: 400,
 		Rule: "sequential part: EstimatedSize, WeightedSize, GetMaximum, All/Keys/Values/Hottest/Coldest compared with the model after operations"},
 	"C06": {Profiles: []string{"mix", "expiry", "size", "queued"}, Classes: []string{"event", "unreported"}, Quick: 8000, Thorough: 500000, MinOps: 80, MaxOps: 300,
 		Rule: "sequential part: the exact multiset of OnAtomicDeletion/OnDeletion events of every operation (own effects with Replacement/Invalidation/Expiration causes, automatic removals) is compared with the model"},
@@ -262,6 +262,7 @@ func (c *Coverage) add(d *Coverage) {
 		c.CalcCalls[i] += d.CalcCalls[i]
 	}
 	c.SweepChecked += d.SweepChecked
+	c.Audits += d.Audits
 	c.RefreshMsgs += d.RefreshMsgs
 	c.Iterations += d.Iterations
 }
@@ -296,6 +297,7 @@ func (c *Coverage) export(col *core.Collector) {
 		}
 	}
 	col.Count("sweep_entries_judged", c.SweepChecked)
+	col.Count("structural_audits_after_cleanup", c.Audits)
 	col.Count("refresh_messages", c.RefreshMsgs)
 }
 
